@@ -184,7 +184,9 @@ func runOne(t *testing.T, sc *Scenario, prop string, idx int, seed uint64, repla
 			})
 		case "R":
 			w.Free = true
-			simrt.SetMode(simrt.Off)
+			w.Real = true
+			simrt.SetRealWorld(w.World)
+			defer simrt.ClearWorld(w.World)
 			runScenario(w, sc)
 		}
 	}()
